@@ -24,6 +24,8 @@ fn cell(name: &str, auth: Auth, mismatch: bool) -> EvCell {
         EvOp::EmitS(SK::E1, Mode::Direct(1), None),
         EvOp::EmitS(SK::EI, Mode::Broadcast, None),
         EvOp::EmitS(SK::TI, Mode::Direct(1), None),
+        EvOp::EmitS(SK::E1, Mode::Except(1), None),
+        EvOp::EmitS(SK::EI, Mode::Except(0), None),
         EvOp::Burst(2),
         EvOp::Disconnect(1),
     ];
